@@ -19,6 +19,18 @@
 (* read mode.  Two updates then hold it together, both checks run before   *)
 (* either write, both write: TLC refutes AtMostOneNormal.                  *)
 (*                                                                         *)
+(* Second family (init = "del"): a switch of the active mode to x          *)
+(* (ChangeActiveMode / UpdateActiveMode, or ChangeToNormalMode /           *)
+(* ClearActiveMode with x the normal mode) against DeleteMode(x), the      *)
+(* switch split at "check" = look the mode up / "write" = commit it as the *)
+(* active mode, the delete at "check" = is it the active mode, does it     *)
+(* exist / "write" = remove it.  ActiveExists: the active mode is never    *)
+(* deleted, and always refers to a mode that exists.  Deviation            *)
+(* "change-unlocked-commit": ChangeActiveMode looks the mode up under the  *)
+(* read lock, releases it and commits without the lock - a DeleteMode(x)   *)
+(* in the gap still sees the old active mode and succeeds, then the        *)
+(* deleted mode becomes active: TLC refutes ActiveExists.                  *)
+(*                                                                         *)
 (* The initial states range over the cases (initial normal mode none /     *)
 (* another mode, pairs of UpdateMode / AddMode / CreateMode carrying       *)
 (* normal = true); EmitCase prints them for the harness, which replays     *)
@@ -30,12 +42,13 @@ EXTENDS Integers, FiniteSets, Sequences, TLC, Json
 CONSTANTS Dev
 
 VARIABLES modes,   \* id |-> normal flag        (the table; titles etc. play no role here)
+          active,  \* id of the active mode
           lockW,   \* 0 or the process holding Model.mu in write mode
           lockR,   \* the processes holding Model.mu in read mode
           pc,      \* per process: "idle" | "check" | "write" | "done"
           err,     \* per process: "" | "OK" | "AlreadyExists" | "NotFound"
           cfg      \* the case: [init, ops]
-cvars == <<modes, lockW, lockR, pc, err, cfg>>
+cvars == <<modes, active, lockW, lockR, pc, err, cfg>>
 
 Procs == {1, 2}
 
@@ -47,55 +60,96 @@ UpdB == Op("Update", "b", "normal")
 AddD == Op("Add", "d", "nil")
 AddE == Op("Add", "e", "nil")
 Create == Op("Create", "", "nil")
+Plain(o, id) == [Op(o, id, "nil") EXCEPT !.normal = FALSE]
+ChangeA == Plain("Change", "a")
+ClearN == Plain("Clear", "")
+DeleteA == Plain("Delete", "a")
+DelPairs == { <<ChangeA, DeleteA>>, <<ClearN, DeleteA>> }
 Pairs == { <<UpdA, UpdB>>, <<UpdA, AddD>>, <<UpdA, Create>>, <<AddD, AddE>>, <<AddD, Create>>, <<Create, Create>> }
 
 \* the id a call writes (CreateMode: the device allocates a fresh one, here "n<p>")
 Target(p) == IF cfg.ops[p].op = "Create" THEN "n" \o ToString(p) ELSE cfg.ops[p].id
 NormalIds == { i \in DOMAIN modes : modes[i] }
 
+\* init "del": a is the normal mode, c is active
 Init == /\ cfg \in { [init |-> i, ops |-> ops] : i \in {"none", "other"}, ops \in Pairs }
-        /\ modes = [i \in {"a", "b", "c"} |-> i = "c" /\ cfg.init = "other"]
+                 \cup { [init |-> "del", ops |-> ops] : ops \in DelPairs }
+        /\ modes = [i \in {"a", "b", "c"} |-> (i = "c" /\ cfg.init = "other") \/ (i = "a" /\ cfg.init = "del")]
+        /\ active = IF cfg.init = "del" THEN "c" ELSE ""
         /\ lockW = 0 /\ lockR = {}
         /\ pc = [p \in Procs |-> "idle"] /\ err = [p \in Procs |-> ""]
 
-ReadMode(p) == cfg.ops[p].op = "Update" /\ "update-rlock" \in Dev
+Kind(p) == cfg.ops[p].op
+Unlocked(p) == Kind(p) = "Change" /\ "change-unlocked-commit" \in Dev
+ReadMode(p) == (Kind(p) = "Update" /\ "update-rlock" \in Dev) \/ Unlocked(p)
 
 Acquire(p) == /\ pc[p] = "idle" /\ lockW = 0
               /\ IF ReadMode(p) THEN lockR' = lockR \cup {p} /\ lockW' = lockW
                                 ELSE lockR = {} /\ lockW' = p /\ lockR' = lockR
               /\ pc' = [pc EXCEPT ![p] = "check"]
-              /\ UNCHANGED <<modes, err, cfg>>
+              /\ UNCHANGED <<modes, active, err, cfg>>
 
 Release(p) == /\ lockW' = IF lockW = p THEN 0 ELSE lockW
               /\ lockR' = lockR \ {p}
 
 \* updateMode / createOrAddMode: "if this mode is normal, check that there isn't another normal mode"
-Check(p) == /\ pc[p] = "check"
+Check(p) == /\ pc[p] = "check" /\ Kind(p) \in {"Update", "Add", "Create"}
             /\ LET refused == (NormalIds \ {Target(p)}) # {}
                    missing == cfg.ops[p].op = "Update" /\ Target(p) \notin DOMAIN modes
                IN IF refused \/ missing
                   THEN /\ err' = [err EXCEPT ![p] = IF refused THEN "AlreadyExists" ELSE "NotFound"]
                        /\ pc' = [pc EXCEPT ![p] = "done"] /\ Release(p)
                   ELSE /\ pc' = [pc EXCEPT ![p] = "write"] /\ UNCHANGED <<err, lockW, lockR>>
-            /\ UNCHANGED <<modes, cfg>>
+            /\ UNCHANGED <<modes, active, cfg>>
 
 \* modes.Update / modes.Add
-Write(p) == /\ pc[p] = "write"
+Write(p) == /\ pc[p] = "write" /\ Kind(p) \in {"Update", "Add", "Create"}
             /\ modes' = [i \in (DOMAIN modes) \cup {Target(p)} |-> IF i = Target(p) THEN TRUE ELSE modes[i]]
             /\ err' = [err EXCEPT ![p] = "OK"]
             /\ pc' = [pc EXCEPT ![p] = "done"] /\ Release(p)
-            /\ UNCHANGED cfg
+            /\ UNCHANGED <<active, cfg>>
 
-Next == \E p \in Procs : Acquire(p) \/ Check(p) \/ Write(p)
+Finish(p, e) == /\ err' = [err EXCEPT ![p] = e] /\ pc' = [pc EXCEPT ![p] = "done"] /\ Release(p)
+\* changeActiveMode: findMode (ChangeToNormalMode: normalMode first) ...
+SwitchTarget(p) == IF Kind(p) = "Clear"
+                   THEN (IF NormalIds = {} THEN "" ELSE CHOOSE i \in NormalIds : TRUE) ELSE cfg.ops[p].id
+Lookup(p) == /\ pc[p] = "check" /\ Kind(p) \in {"Change", "Clear"}
+             /\ IF SwitchTarget(p) \notin DOMAIN modes
+                THEN Finish(p, "NotFound")
+                ELSE /\ pc' = [pc EXCEPT ![p] = "write"] /\ UNCHANGED err
+                     \* the deviation lets go of the lock here
+                     /\ IF Unlocked(p) THEN Release(p) ELSE UNCHANGED <<lockW, lockR>>
+             /\ UNCHANGED <<modes, active, cfg>>
+\* ... activeMode.Set(mode); the target was fixed by the lookup (with the lock held nothing can
+\* have changed in between)
+Commit(p) == /\ pc[p] = "write" /\ Kind(p) \in {"Change", "Clear"}
+             /\ active' = SwitchTarget(p)
+             /\ Finish(p, "OK") /\ UNCHANGED <<modes, cfg>>
+\* deleteMode: "if id == active.Id return ErrDeleteActiveMode", then modes.Delete
+DelCheck(p) == /\ pc[p] = "check" /\ Kind(p) = "Delete"
+               /\ IF cfg.ops[p].id = active THEN Finish(p, "FailedPrecondition")
+                  ELSE IF cfg.ops[p].id \notin DOMAIN modes THEN Finish(p, "NotFound")
+                  ELSE pc' = [pc EXCEPT ![p] = "write"] /\ UNCHANGED <<err, lockW, lockR>>
+               /\ UNCHANGED <<modes, active, cfg>>
+DelWrite(p) == /\ pc[p] = "write" /\ Kind(p) = "Delete"
+               /\ modes' = [i \in (DOMAIN modes) \ {cfg.ops[p].id} |-> modes[i]]
+               /\ Finish(p, "OK") /\ UNCHANGED <<active, cfg>>
+
+Next == \E p \in Procs : Acquire(p) \/ Check(p) \/ Write(p) \/ Lookup(p) \/ Commit(p) \/ DelCheck(p) \/ DelWrite(p)
 Spec == Init /\ [][Next]_cvars
 
 ----------------------------------------------------------------------------
 AtMostOneNormal == Cardinality(NormalIds) <= 1
-LockDiscipline == (lockW # 0 => lockR = {}) /\ \A p \in Procs : pc[p] \in {"check", "write"} <=> (lockW = p \/ p \in lockR)
+ActiveExists == active = "" \/ active \in DOMAIN modes
+LockDiscipline == /\ lockW # 0 => lockR = {}
+                  /\ \A p \in Procs : (pc[p] \in {"check", "write"} /\ ~(Unlocked(p) /\ pc[p] = "write"))
+                                        <=> (lockW = p \/ p \in lockR)
 \* the two serial orders agree here: with no normal mode before, the first call succeeds and the second
 \* is refused; with another normal mode before, both are refused
+\* switch against delete of the same mode: either the switch comes first (delete refused: active mode) or
+\* the delete does (switch refused: not found) - exactly one of the two calls is refused
 Serializable == (\A p \in Procs : pc[p] = "done") =>
-                  Cardinality({ p \in Procs : err[p] = "OK" }) = (IF cfg.init = "none" THEN 1 ELSE 0)
+                  Cardinality({ p \in Procs : err[p] = "OK" }) = (IF cfg.init = "other" THEN 0 ELSE 1)
 
 EmitCase == (\A p \in Procs : pc[p] = "idle") => PrintT("CASE " \o ToJson(cfg))
 =============================================================================
